@@ -96,7 +96,12 @@ class PathState:
     def check(self, *extra):
         """sat / unsat / unknown of pc + scopes + extra."""
         self.stats['feasibility_queries'] = self.stats.get('feasibility_queries', 0) + 1
+        import time as _t
+        t0 = _t.time()
         r = self.solver.check(*(list(self.scopes) + list(extra)))
+        dt = _t.time() - t0
+        if dt > 1.0:
+            self.stats.setdefault('slow_queries', []).append((round(dt, 2), str(r), [str(e)[:200] for e in extra]))
         return r
 
     def is_feasible(self, t):
